@@ -159,7 +159,7 @@ def _kani_prepare():
     if not os.path.exists(os.path.join(driver.REPO, "Cargo.toml")):
         return None, "%s is not a full crate: Kani unavailable" % driver.REPO
     os.makedirs(d, exist_ok=True)
-    p = subprocess.run(["rsync", "-a", "--delete", "--exclude", "target", "--exclude", ".git", "--exclude", "Cargo.lock",
+    p = subprocess.run(["rsync", "-rlpc", "--delete", "--exclude", "target", "--exclude", ".git", "--exclude", "Cargo.lock",
                         driver.REPO.rstrip("/") + "/", d + "/"], capture_output=True, text=True)
     if p.returncode != 0:
         return None, "rsync failed: " + p.stderr[-300:]
